@@ -127,11 +127,22 @@ func cmdCheck(args []string) int {
 	if cc.TimeBudgetS > 0 {
 		budget = time.Duration(cc.TimeBudgetS) * time.Second
 	}
+	// thorough tier: per-entry budget (default 30 min, check.json time_budget_thorough_s) inside a
+	// total wall budget per check (SYMGO_THOROUGH_TOTAL_S, default 2 h); an entry that reaches its
+	// budget is reported PARTIAL (exit code unaffected), see runEntry
+	totalDeadline := time.Time{}
 	if thorough {
-		budget = 60 * time.Minute
+		budget = 30 * time.Minute
 		if cc.TimeBudgetThoroughS > 0 {
 			budget = time.Duration(cc.TimeBudgetThoroughS) * time.Second
 		}
+		total := 2 * time.Hour
+		if v := os.Getenv("SYMGO_THOROUGH_TOTAL_S"); v != "" {
+			if n, err := strconv.Atoi(v); err == nil && n > 0 {
+				total = time.Duration(n) * time.Second
+			}
+		}
+		totalDeadline = time.Now().Add(total)
 	}
 	nSelf := cc.SelfTest
 	if thorough && cc.SelfTestT > 0 {
@@ -178,7 +189,16 @@ func cmdCheck(args []string) int {
 		sampleGate.mu.Lock()
 		sampleGate.want, sampleGate.got = nSelf, 0
 		sampleGate.mu.Unlock()
-		r, err := prog.runEntry(ec, *workers, *solver, logDir, budget, nSelf)
+		entryBudget := budget
+		if !totalDeadline.IsZero() {
+			if left := time.Until(totalDeadline); left < entryBudget {
+				entryBudget = left
+				if entryBudget < time.Minute {
+					entryBudget = time.Minute
+				}
+			}
+		}
+		r, err := prog.runEntry(ec, *workers, *solver, logDir, entryBudget, nSelf)
 		if err != nil {
 			fmt.Fprintln(os.Stderr, "run:", err)
 			fmt.Printf("INCONCLUSIVE property=%s reason=%v\n", id, err)
@@ -189,6 +209,9 @@ func cmdCheck(args []string) int {
 			id, shortName(ec.Func), r.Paths, r.Ends, r.Queries, r.Asserts, r.AssertsSeen, len(r.Violations), r.Wall.Seconds(), r.SolverTime.Seconds())
 		for _, m := range r.Inconclusive {
 			fmt.Fprintf(os.Stderr, "   inconclusive: %s\n", m)
+		}
+		for _, m := range r.Partial {
+			fmt.Fprintf(os.Stderr, "   partial: %s\n", m)
 		}
 		for k, v := range r.Warnings {
 			fmt.Fprintf(os.Stderr, "   warning: %s (x%d)\n", k, v)
@@ -209,6 +232,9 @@ func cmdCheck(args []string) int {
 	for _, r := range results {
 		for _, m := range r.Inconclusive {
 			inconclusive = append(inconclusive, shortName(r.Entry)+": "+m)
+		}
+		for _, m := range r.Partial {
+			lines = append(lines, fmt.Sprintf("PARTIAL property=%s entry=%s %s (thorough-tier time budget reached: the stated bound was NOT fully explored; everything explored held)", id, shortName(r.Entry), m))
 		}
 		// dedupe violations by message
 		seenMsg := map[string]bool{}
